@@ -36,13 +36,13 @@ GETTERS = ['get_results', 'get_results_short', 'get_results_long', 'get_debug']
 
 def BOUNDS(tier):
     return ('shapes: %s corner/random shapes with ns<=3; flags: {}, -pc, -twopl, -twopl -stab; criteria: none, one single, one pair; status Optimal / Infeasible / '
-            'Not Solved; time limit unset / symbolic; getter sequences: each getter twice in a seeded order (8 calls), then a second solve' % ('8' if tier == 'quick' else '40'))
+            'Not Solved; time limit unset / symbolic; getter sequences: each getter twice in a seeded order (8 calls), then a second solve' % ('8' if tier == 'quick' else '24'))
 
 
 def tasks(tier, seed):
     rng = random.Random(seed + 1818)
     shs = [s for s in shapes.shape_set(tier, seed, quick_n=6, thorough_n=60) if s.ns <= 3 and sum(len(g) for gs in s.prefs for g in gs) <= 6]
-    shs = shs[:8] if tier == 'quick' else shs[:40]
+    shs = shs[:8] if tier == 'quick' else shs[:24]
     small = lambda I_: I_.np <= 2 and I_.nl <= 2
     out = []
     seqs = [[], [('maxsize', [])], [('mincost', [2, 1])], [('lsb', []), ('mincost', [])], [('gre', [])], [('mincostlsb', [1, 2])], [('minsqcost', [1, 1]), ('gen', [])]]
